@@ -16,4 +16,19 @@ META = {
   text="parse(render a) = a is a Lean theorem for every written annotation satisfying an explicit decidable well-formedness predicate (any name, any value over the class, any JSON text, any description); soundness (nothing invented), source order, the description rule and 'malformed JSON5 is an error' are theorems over every comment block. The matcher is tied to the code by the regenerated regex text (a changed regex breaks a proof obligation) and by tens of thousands of generated comment blocks pushed through go/parser and the real holder, with intent-based round-trip checks on the implementation's own answers.",
   note="Trusted: Lean kernel, standard axioms, hand-written matcher vs RE2 semantics (sampled), json5 library as a parameter. Partial: round trip needs the unambiguity hypothesis; its failure is the open finding C16-F1.",
  ),
+ "C01": dict(
+  technique="Lean 4 proof (map-insertion lemmas: nothing invented / nothing dropped / exactness under no verb-path collision) + differential correspondence of both emitters on generated IR",
+  text="That the emitted operations are exactly the non-hidden annotated routes (operationId, controller tag, deprecation, normalised prefix+route path, never another controller's prefix or tag) is a Lean theorem over every controller list; the model is compared with the operations read back from the real 3.0 and 3.1 documents on thousands of generated IR documents per run, and the property's clauses are evaluated directly on those documents.",
+  note="Trusted: Lean kernel, standard axioms, hand-written IR model, harness. Source-to-IR discovery is sampled (proj stream), not proved.",
+ ),
+ "C04": dict(
+  technique="Lean 4 proof (effective-security definition, documented = enforced for every reducible route, undeclared scheme <=> no spec, enforce flag) + three-way correspondence spec JSON / SecurityCheckList literals of the rendered routers / model",
+  text="documented security = enforced security is a Lean theorem for every combination of method/controller/default security; 'undeclared scheme <=> emitter fails' and 'every named scheme is declared' are theorems about the emitter model. Each run compares the `security` arrays of both real documents with the SecurityCheckList literals extracted (go/ast) from the generated routers of all five engines and with the model.",
+  note="Trusted: Lean kernel, standard axioms, hand-written model, go/ast extraction of the routes file. enforceSecurityOnAllRoutes is validated in the proj stream.",
+ ),
+ "C06": dict(
+  technique="Lean 4 proof (required-rule over all validator strings via strings.Split lemmas; parameter/response map lemmas) + differential correspondence on operation contracts of both documents",
+  text="The requiredness rule is proved for every validator string (List Char, Go strings.Split semantics); parameters = non-context path/query/header parameters in order, success and error responses under their codes are theorems on the emitter model; each run compares parameter lists, JSON and form bodies and response tables of the real 3.0/3.1 documents with the model and evaluates the clauses on the documents themselves.",
+  note="Trusted: Lean kernel, standard axioms, hand-written model, harness.",
+ ),
 }
